@@ -50,8 +50,8 @@ type xfamily struct {
 
 var xfamilies = []xfamily{
 	{"used", "destinations {[]byte,[]int8,[]int32,[]int64,[]int16,[]string} x previous contents {nil,len0cap0,len0cap8,len1cap8,len3cap3,len5cap5,len5cap8, left by a go-mc decode of 0/1/3/5 elements} x document lengths {0,1,3} x position {root, struct field, non-nil pointer field, map entry}; scalar fields and map entries holding old values", true, usedCases},
-	{"sizes", "containers {ByteArray,IntArray,LongArray,List<Byte>,List<Short>,List<Double>,List<String>,List<Compound>} x lengths " + fmt.Sprint(bigLens) + " x {decode into any, typed, skipped as an undeclared key, RawMessage} x 4 source kinds x one trailing byte; the same lengths encoded from typed slices", true, sizeCases},
-	{"strings", "string lengths " + fmt.Sprint(strLens) + " x position {root value, compound value, compound key, root name, list element, skipped value} x {any, typed} x 4 source kinds x trailing {0,1}; the same lengths encoded as value, map key, nbtkey, root name", true, stringCases},
+	{"sizes", "containers {ByteArray,IntArray,LongArray,List<Byte>,List<Short>,List<Double>,List<String>,List<Compound>} x lengths " + lensText(bigLens) + " x {decode into any, typed, skipped as an undeclared key, RawMessage} x 4 source kinds x one trailing byte; the same lengths encoded from typed slices", true, sizeCases},
+	{"strings", "string lengths " + lensText(strLens) + " x position {root value, compound value, compound key, root name, list element, skipped value} x {any, typed} x 4 source kinds x trailing {0,1}; the same lengths encoded as value, map key, nbtkey, root name", true, stringCases},
 	{"widen", "tags {Byte,Short,Int,Long,Float} with the full boundary alphabet x destination kinds {bool,int8..int64,int,uint8..uint64,uint,float32,float64} x position {root, struct field, slice element, array element, map entry}; typed arrays into every integer slice kind", true, widenCases},
 	{"tags", "struct-tag combinations name {none,n} x options {none,omitempty,list,'omitempty,list','list,omitempty'} x nbtkey {none,'a,b','k'} x field type {[]byte,[]int32,[]int64,int32,string,[]string,map[string]int8,*int16} x value {empty, non-empty} x {file,network} x {encode, decode back}", true, tagCases},
 	{"reuse", "one Decoder over a stream of 1..3 documents (x {any, typed} x {bytes.Reader, plain reader}) and one Encoder writing 1..3 documents, every sequence over a menu of 6 documents x {file,network} switched between calls; the Encoder menu also has 2 values the encoder refuses (before / after emitting part of a document)", true, reuseCases},
@@ -362,7 +362,7 @@ func runUsedScalars(zero bool) (string, string) {
 // ---------------------------------------------------------------------------------------------
 // family "sizes"
 
-var bigLens = []int{127, 128, 129, 255, 256, 257, 32767, 32768, 65535, 65536, 65537, 131073}
+var bigLens = append(everyLen(0, 300), 32767, 32768, 65535, 65536, 65537, 131073)
 
 type bigKind struct {
 	name string
@@ -557,7 +557,20 @@ func judgeEmitted(pre string, out []byte, rootName string, network bool, want *r
 // ---------------------------------------------------------------------------------------------
 // family "strings"
 
-var strLens = []int{6, 7, 8, 9, 15, 16, 17, 31, 32, 33, 63, 64, 65, 127, 128, 129, 255, 256, 257, 511, 512, 513, 1023, 1024, 1025, 4095, 4096, 4097, 8192, 16384, 32766, 32767}
+// every length up to 300 (a scratch buffer or block size of the implementation may sit anywhere), then boundaries
+var strLens = append(everyLen(2, 300), 511, 512, 513, 1023, 1024, 1025, 4095, 4096, 4097, 8192, 16384, 32766, 32767)
+
+func everyLen(lo, hi int) []int {
+	var out []int
+	for i := lo; i <= hi; i++ {
+		out = append(out, i)
+	}
+	return out
+}
+
+func lensText(l []int) string {
+	return fmt.Sprintf("every length %d..300 and %v", l[0], l[300-l[0]+1:])
+}
 
 var strPositions = []string{"root-value", "compound-value", "compound-key", "root-name", "list-element", "skipped-value"}
 
@@ -1199,8 +1212,8 @@ func extraFamilies() {
 	}
 	sort.Strings(names)
 	rep.Extra("extra_families", desc)
-	rep.Extra("extra_string_lengths", strLens)
-	rep.Extra("extra_container_lengths", bigLens)
+	rep.Extra("extra_string_lengths", lensText(strLens))
+	rep.Extra("extra_container_lengths", lensText(bigLens))
 	rep.Extra("extra_source_kinds", srcKinds)
 }
 
